@@ -49,6 +49,11 @@ pub(crate) struct DhtHandler {
     refresh: TableRefresh,
     // Ongoing TableLookups.
     lookups: HashMap<ActionID, TableLookup>,
+
+    // Whether the initial bootstrap has completed.
+    initial_bootstrap_done: bool,
+    // Lookups requested before the initial bootstrap completed. They are started once it does.
+    pending_lookups: Vec<StartLookup>,
 }
 
 impl DhtHandler {
@@ -93,6 +98,8 @@ impl DhtHandler {
             bootstrap_txs: HashMap::new(),
             refresh: table_refresh,
             lookups: HashMap::new(),
+            initial_bootstrap_done: false,
+            pending_lookups: Vec::new(),
         }
     }
 
@@ -417,10 +424,26 @@ impl DhtHandler {
 
         // Start the refresh action.
         self.handle_check_table_refresh().await;
+
+        // Start the lookups that were requested before the initial bootstrap completed.
+        self.initial_bootstrap_done = true;
+
+        for lookup in std::mem::take(&mut self.pending_lookups) {
+            self.start_lookup(lookup).await;
+        }
     }
 
     async fn handle_start_lookup(&mut self, lookup: StartLookup) {
-        // Start the lookup right now if not bootstrapping
+        // Start the lookup right now if not bootstrapping, otherwise queue it until the bootstrap
+        // completes.
+        if self.initial_bootstrap_done {
+            self.start_lookup(lookup).await;
+        } else {
+            self.pending_lookups.push(lookup);
+        }
+    }
+
+    async fn start_lookup(&mut self, lookup: StartLookup) {
         let mid_generator = self.aid_generator.generate();
         let action_id = mid_generator.action_id();
 
